@@ -165,6 +165,20 @@ pub extern "C" fn cb_dispatch(ctx: *mut TsRunContext, this_arg: *mut TsRunValue,
                 e.tag("callback:called-back-into-tsrun_call");
             }
         }
+        11 => {
+            // re-enter through tsrun_call_method: arg0.f(rest...) when arg0 is an object (the programs pass objects with a script method f)
+            let is_obj = arg_slots.first().map(|s| e.is_objectish(*s)).unwrap_or(false);
+            if is_obj && depth < MAX_DEPTH {
+                let mut rest: Vec<*mut TsRunValue> = arg_slots.iter().skip(1).map(|s| e.vals.borrow()[*s].ptr).collect();
+                let m = Exe::cstring(if spec["sel"].as_u64().unwrap_or(0) % 4 == 3 { "toString" } else { "f" });
+                e.mutated(ci);
+                e.pre("tsrun_call_method", Some(ci));
+                let r = unsafe { tsrun_call_method(c, arg0.unwrap_or(ptr::null_mut()), m.as_ptr(), rest.as_mut_ptr(), rest.len()) };
+                // "f is not a function" is a legitimate answer for objects without that method
+                out = e.check_vr("tsrun_call_method", Some(ci), r, Expect::Either);
+                e.tag("callback:re-entered-through-tsrun_call_method");
+            }
+        }
         7 => {
             // hand a handle of the host's own pool over to the interpreter (the trampoline takes ownership)
             let pick = {
